@@ -52,20 +52,25 @@ def _parse(
         raise ParserError(f"Unable to parse string [{text}]")
 
 
+def _datetime(parsed: datetime.datetime, **options: t.Any) -> DateTime:
+    # Endpoints of an interval are built like a date-time parsed on its own
+    return pendulum.datetime(
+        parsed.year,
+        parsed.month,
+        parsed.day,
+        parsed.hour,
+        parsed.minute,
+        parsed.second,
+        parsed.microsecond,
+        tz=parsed.tzinfo or options.get("tz", UTC),
+    )
+
+
 def _wrap(
     parsed: t.Any, **options: t.Any
 ) -> Date | DateTime | Time | Duration | Interval[DateTime]:
     if isinstance(parsed, datetime.datetime):
-        return pendulum.datetime(
-            parsed.year,
-            parsed.month,
-            parsed.day,
-            parsed.hour,
-            parsed.minute,
-            parsed.second,
-            parsed.microsecond,
-            tz=parsed.tzinfo or options.get("tz", UTC),
-        )
+        return _datetime(parsed, **options)
 
     if isinstance(parsed, datetime.date):
         return pendulum.date(parsed.year, parsed.month, parsed.day)
@@ -80,7 +85,7 @@ def _wrap(
             duration = parsed.duration
 
             if parsed.start is not None:
-                dt = pendulum.instance(parsed.start, tz=options.get("tz", UTC))
+                dt = _datetime(parsed.start, **options)
 
                 return pendulum.interval(
                     dt,
@@ -96,9 +101,7 @@ def _wrap(
                     ),
                 )
 
-            dt = pendulum.instance(
-                t.cast(datetime.datetime, parsed.end), tz=options.get("tz", UTC)
-            )
+            dt = _datetime(t.cast(datetime.datetime, parsed.end), **options)
 
             return pendulum.interval(
                 dt.subtract(
@@ -115,12 +118,8 @@ def _wrap(
             )
 
         return pendulum.interval(
-            pendulum.instance(
-                t.cast(datetime.datetime, parsed.start), tz=options.get("tz", UTC)
-            ),
-            pendulum.instance(
-                t.cast(datetime.datetime, parsed.end), tz=options.get("tz", UTC)
-            ),
+            _datetime(t.cast(datetime.datetime, parsed.start), **options),
+            _datetime(t.cast(datetime.datetime, parsed.end), **options),
         )
 
     if isinstance(parsed, Duration):
